@@ -273,6 +273,11 @@ class FileResponse(StreamResponse):
         return file_path if S_ISREG(st.st_mode) else None, st, None
 
     async def prepare(self, request: "BaseRequest") -> AbstractStreamWriter | None:
+        # The file is sent by the first call only, as in StreamResponse.prepare()
+        if self._eof_sent:
+            return None
+        if self._payload_writer is not None:
+            return self._payload_writer
         loop = asyncio.get_running_loop()
         # Encoding comparisons should be case-insensitive
         # https://www.rfc-editor.org/rfc/rfc9110#section-8.4.1
